@@ -548,11 +548,12 @@ fn index_get_array(obj: Object, mut index: isize) -> Result<Object, Error> {
 
 fn index_get_string(obj: Object, mut index: isize, gc: &mut GC) -> Result<Object, Error> {
     let str = obj.as_str();
+    let strlen = str.chars().count();
     if index < 0 {
-        index += str.chars().count() as isize;
+        index += strlen as isize;
     }
     let index = index as usize;
-    if index >= str.len() {
+    if index >= strlen {
         return Err(Error::IndexError(
             "lijst index valt buiten de lijst".to_string(),
         ));
